@@ -146,7 +146,18 @@ func siblingGroups(r *Rand) [][]string {
 func buildC10Pool(env *Env, r *Rand, n int) ([]poolProg, [][]int) {
 	reserved := reservedPrefixes(env.Repo)
 	var pool []poolProg
-	add := func(kind, src string) { pool = append(pool, poolProg{Src: []byte(src), Kind: kind}) }
+	// The fresh-process references come from the CLI, which decodes its input file as Shift_JIS before parsing,
+	// while the worker hands the bytes to the parser as they are: only for pure ASCII text do both see the same
+	// program, so the pool is kept ASCII (non-ASCII sources through the CLI are C19's subject).
+	add := func(kind, src string) {
+		b := []byte(src)
+		for i := range b {
+			if b[i] >= 0x80 {
+				b[i] = 'x'
+			}
+		}
+		pool = append(pool, poolProg{Src: b, Kind: kind})
+	}
 	var sib [][]int
 	for gi, grp := range siblingGroups(r) {
 		var idx []int
